@@ -6,9 +6,10 @@ set -u
 patch="$(readlink -f "$1")"; shift
 WT=/var/tmp/vmut/repo; VR=/var/tmp/vmut/verif
 mkdir -p /var/tmp/vmut
-if [ ! -d "$WT" ]; then git -C /repo worktree add --detach "$WT" HEAD >/dev/null 2>&1 || exit 2; fi
-git -C "$WT" checkout -q --detach "$(git -C /repo rev-parse HEAD)" && git -C "$WT" checkout -q -- . && git -C "$WT" clean -fdq -e target
-git -C "$WT" apply "$patch" || { echo "patch does not apply"; exit 2; }
+# scratch copy of /repo's current working tree (committed or not), never /repo itself
+mkdir -p "$WT"
+rsync -a --delete --exclude target --exclude .git /repo/ "$WT"/
+( cd "$WT" && git apply --unsafe-paths "$patch" ) || ( cd "$WT" && patch -p1 --no-backup-if-mismatch < "$patch" ) || { echo "patch does not apply"; exit 2; }
 mkdir -p "$VR"
 rsync -a --delete --exclude target --exclude evidence --exclude replays --exclude .git /verif/ "$VR"/
 mkdir -p "$VR/evidence" "$VR/replays"
@@ -18,4 +19,3 @@ for p in "$@"; do
   echo "=== mutant $(basename "$(dirname "$patch")")/$(basename "$patch") vs $p"
   VERIF_ROOT="$VR" "$VR/check" "$p" --tier "${TIER:-quick}" 2>&1 | cut -c1-600 | grep -E "SUMMARY|VIOLATION|KNOWN-FINDING|MACHINERY|INFO" | head -${LINES_MAX:-12}
 done
-git -C "$WT" checkout -q -- . 
